@@ -189,6 +189,16 @@ class Unit(Translator):
         return self._wrap_ret(callee, '%s(%s)' % (disp, ', '.join(a)))
 
     def call_operator(self, P, n, r, args):
+        if r.get('name') == 'operator()' and self.category(P.ty(args[0])) == 'stdfn':
+            ft = P.ty(args[0]).strip_ref().args[0]
+            ptypes = ['void *'] + [self.ctype_t(p) for p in ft.params]
+            ret = self.ctype_t(ft.to)
+            avals = []
+            for p, a in zip(ft.params, args[1:]):
+                avals.append(P.addr(a) if p.is_ref() else P.ex(a))
+            f = P.ex(args[0])
+            P.note_throw() if self.opts.get('all_calls_may_throw') else None
+            return '((%s (*)(%s))(%s.fn))(%s.env%s)' % (ret, ', '.join(ptypes), P.paren(f), P.paren(f), ''.join(', ' + v for v in avals))
         callee = self.resolve_fn(r['id'])
         if callee is not None and callee.get('isImplicit') and r.get('name') == 'operator=' and self.category(P.ty(args[0])) == 'record':
             q = P.ty(args[0]).strip_ref().name
@@ -360,6 +370,24 @@ class Unit(Translator):
             f = ci.get('anyInit')
             e = [c for c in ci.get('inner', []) if c]
             if not f:
+                ce = P.skip(e[0]) if e else None
+                if ce is not None and ce.get('kind') in ('CXXConstructExpr', 'CXXTemporaryObjectExpr'):
+                    bt = P.ty(ce); self.category(bt)
+                    target = 'self' if bt.strip_ref().name == q else '&self->__base'
+                    args = [a for a in ce.get('inner', []) if a]
+                    if self.category(bt) == 'record':
+                        ctor = self.find_ctor(P, ce, bt, args)
+                        if ctor == 'copy':
+                            out.append(P.ind() + '*(%s) = %s;' % (target, P.ex(args[0])))
+                        elif ctor in ('zero', 'defaults'):
+                            pass
+                        else:
+                            cn = self._callee_cname(P, ctor)
+                            out.append(P.ind() + '%s(%s);' % (cn, ', '.join([target] + P.call_args(ctor, args))))
+                        P.after_stmt(out)
+                        continue
+                    self.dropped.add('base-class constructor of library type in %s' % P.cname)
+                    continue
                 if ci.get('baseInit'):
                     self.dropped.add('base-class constructor call in %s' % P.cname)
                     continue
@@ -381,24 +409,60 @@ class Unit(Translator):
             return '(%s = (%s *)malloc(sizeof(%s)), *%s = %s, %s)' % (tmp, cty, cty, tmp, P.ex(inner[-1]), tmp)
         return '(%s = (%s *)malloc(sizeof(%s)), %s)' % (tmp, cty, cty, tmp)
 
-    def lambda_expr(self, P, n):
-        """capture-less lambda -> static C function; the lambda value is the function designator"""
+    def lambda_expr(self, P, n, as_stdfn=False):
+        """lambda -> static C function.  Capture-less lambdas used as plain callables yield the function designator; when a
+        lambda is converted to std::function (or has captures) the function takes the closure object as first parameter and
+        the value is a struct stdfn {code, environment}; captured variables are fields of the closure (pointers for
+        by-reference captures)."""
         rec = [c for c in n.get('inner', []) if c.get('kind') == 'CXXRecordDecl']
         if not rec: raise Unsupported('%s: lambda without closure class' % P.cname)
         fields = [c for c in rec[0].get('inner', []) if c.get('kind') == 'FieldDecl']
-        if fields: raise Unsupported('%s: lambda with captures' % P.cname)
         ops = [c for c in rec[0].get('inner', []) if c.get('kind') == 'CXXMethodDecl' and c.get('name') == 'operator()']
         if not ops: raise Unsupported('%s: lambda without call operator' % P.cname)
         op = ops[0]
-        if op['id'] not in self.cname_of:
-            op['_lambda_free'] = True
+        if not fields and not as_stdfn:
+            if op['id'] not in self.cname_of:
+                op['_lambda_free'] = True
+                k = sum(1 for x in self.fn_by_cname if x.startswith(P.cname + '__lambda'))
+                cn = '%s__lambda%d' % (P.cname, k)
+                self.fn_by_cname[cn] = op; self.cname_of[op['id']] = cn
+                self.srcinfo[cn] = self._src_range(op)
+                if not any(x['id'] == op['id'] for x in self.fn_nodes): self.fn_nodes.append(op)
+            self.want_fn(op['id'])
+            return self.cname_of[op['id']]
+        # closure: pair the capture fields with their initialisers (children of the LambdaExpr after the class)
+        inits = [c for c in n.get('inner', [])[1:] if c.get('kind') not in ('CompoundStmt',)]
+        if len(inits) != len(fields): raise Unsupported('%s: lambda captures (%d fields, %d initialisers)' % (P.cname, len(fields), len(inits)))
+        if op['id'] in self.cname_of:
+            cn = self.cname_of[op['id']]          # already named by an earlier translation pass of the same unit
+        else:
             k = sum(1 for x in self.fn_by_cname if x.startswith(P.cname + '__lambda'))
             cn = '%s__lambda%d' % (P.cname, k)
-            self.fn_by_cname[cn] = op; self.cname_of[op['id']] = cn
-            self.srcinfo[cn] = self._src_range(op)
-            if not any(x['id'] == op['id'] for x in self.fn_nodes): self.fn_nodes.append(op)
+        cl = 'closure_' + cn
+        caps = {}; decls = []; vals = []
+        for i, (f, ie) in enumerate(zip(fields, inits)):
+            ft = self.tparse(f['type'])
+            x = ie
+            while x.get('kind') in ('ImplicitCastExpr', 'ParenExpr', 'CXXConstructExpr') and x.get('inner'): x = x['inner'][0]
+            if x.get('kind') == 'CXXThisExpr':
+                fname = '__this'; caps['this'] = (fname, False)
+                decls.append('%s;' % self.decl_text_t(ft, fname)); vals.append('self')
+                continue
+            if x.get('kind') != 'DeclRefExpr': raise Unsupported('%s: lambda capture initialiser %s' % (P.cname, x.get('kind')))
+            rid = x['referencedDecl']['id']; fname = 'c%d_%s' % (i, x['referencedDecl'].get('name', 'v'))
+            byref = ft.is_ref()
+            caps[rid] = (fname, byref)
+            decls.append('%s;' % self.decl_text_t(ft, fname))
+            vals.append(P.addr(x) if byref else P.ex(ie))
+        gt = 'struct %s { %s };' % (cl, ' '.join(decls) if decls else 'char __empty;')
+        if gt not in self.generated_types: self.generated_types.append(gt)
+        op['_lambda_free'] = True; op['_lambda_env'] = (cl, caps)
+        self.fn_by_cname[cn] = op; self.cname_of[op['id']] = cn
+        self.srcinfo[cn] = self._src_range(op)
+        if not any(x['id'] == op['id'] for x in self.fn_nodes): self.fn_nodes.append(op)
         self.want_fn(op['id'])
-        return self.cname_of[op['id']]
+        tmp = P.new_temp(lambda nm: 'struct %s %s' % (cl, nm))
+        return '((struct stdfn){(void *)%s, (void *)(%s = (struct %s){%s}, &%s)})' % (cn, tmp, cl, ', '.join(vals) if vals else '0', tmp)
 
     EXC_CLASSES = {'std::out_of_range': 'EXC_out_of_range', 'std::invalid_argument': 'EXC_invalid_argument',
                    'std::runtime_error': 'EXC_runtime_error', 'std::bad_optional_access': 'EXC_bad_optional_access'}
@@ -537,6 +601,7 @@ class Unit(Translator):
                 funcs_later.append('struct umap_%s_pair g_umap_other_%s;' % (key[2], key[2]))
         # OPT types embedding records by value: emit record defs, then OPT; records embedding OPT need order.
         out += types_first
+        out += self.generated_types
         out += self._order_records_and_opts(body, funcs_later)
         for gid, (name, text, d) in self.globals.items():
             out.append(text if text.startswith('#define') else text + ';')
@@ -565,7 +630,7 @@ class Unit(Translator):
                 if f in placed: continue
                 inner = f[f.index('(') + 1:].split(',')[0].strip()
                 m = re.match(r"struct (\w+)$", inner)
-                if m is None or ('struct %s {' % m.group(1)) in defined_text:
+                if m is None or m.group(1).startswith(('vec_', 'il_', 'riter_', 'opaque_')) or ('struct %s {' % m.group(1)) in defined_text:
                     res.append(f); placed.add(f)
         place_ready('')
         acc = ''
